@@ -524,9 +524,12 @@ namespace hv
                 ErrorCaptureOptions eo;
                 eo.trace_back_depth = static_cast<std::size_t>(s.kwi("depth", 1));
                 eo.capture_values   = s.kwi("values", 0) != 0;
-                put(s.dst, exception_time_series(pi(a.at(0)), eo), PT::Err);
+                if (get(a.at(0)).type == PT::Err) put(s.dst, exception_time_series(pt<TS<NodeError>>(a.at(0)), eo), PT::Err);
+                else put(s.dst, exception_time_series(pi(a.at(0)), eo), PT::Err);
                 return;
             }
+            if (s.op == "validate") { put(s.dst, wire<VValidate>(w, pi(a.at(0)), uid), PT::Err); return; }
+            if (s.op == "errlen") { put(s.dst, wire<VErrLen>(w, pt<TS<NodeError>>(a.at(0)), uid)); return; }
             if (s.op == "recerr") { wire<VRecErr>(w, pt<TS<NodeError>>(a.at(0)), uid); return; }
             if (exec_coll(*this, s)) return;
             throw std::runtime_error("interp: unknown op " + s.op);
